@@ -25,6 +25,22 @@ Theorem C35_counter : forall f v prev,
 Proof. exact counter_diff. Qed.
 Print Assumptions C35_counter.
 
+(* Model._set_persisted snapshots by VALUE (deepcopy): right after persisting no column counts as changed; a later in-place edit of the
+   live value (outer or inner collection) can therefore never be hidden by the snapshot *)
+Theorem C35_persisted_unchanged : forall cols c, In c (set_persisted cols) -> vm_changed c = false.
+Proof. exact persisted_unchanged. Qed.
+Print Assumptions C35_persisted_unchanged.
+
+(* DMLQuery.update drops the clustering key from WHERE only if EVERY assigned column is static (not: the last one) *)
+Theorem C35_update_key_choice : forall cols sets key,
+  In (CUpdate sets key) (dml_update cols) ->
+  let upd := filter (fun c => negb (c_pkey c) && negb (val_eqb (c_val c) VNone) &&
+                              (vm_changed c || match c_kind c with KCounterC => true | _ => false end)) cols in
+  key = key_kvs cols (forallb c_static upd) /\
+  ((exists c, In c upd /\ c_static c = false) -> key = key_kvs cols false).
+Proof. exact update_key_choice. Qed.
+Print Assumptions C35_update_key_choice.
+
 (* ---- open findings, as witnesses on the faithful model (replayed on the implementation by corpus/C35) ---- *)
 Definition kcol (f : name) (part : bool) (v : Z) : colst :=
   {| c_name := f; c_kind := KScalar; c_part := part; c_clust := negb part; c_static := false; c_val := VInt v; c_prev := VInt v; c_expl := false |}.
